@@ -714,4 +714,932 @@ theorem arcs_cur : ∀ (gs : List Arc) (g : Arc) (s : SSt),
     simp only [List.map_cons, interp] at this ⊢
     rw [this, lastD_cons_eq g a r]
 
+/-! ## radii too small for the chord (findEllipseCenter / SVG F.6.6) -/
+
+theorem mul_self_nonneg' (a : Rat) : 0 ≤ a * a := by
+  by_cases h : 0 ≤ a
+  · exact Rat.mul_nonneg h h
+  · have h' : 0 ≤ -a := by grind
+    have := Rat.mul_nonneg h' h'
+    grind
+
+theorem sq_ne (rb m sq : Rat) (h1 : sq * sq = m) (h2 : rb * rb < m) : sq ≠ 0 := by
+  intro h
+  subst h
+  have : (0 : Rat) ≤ rb * rb := mul_self_nonneg' rb
+  grind
+
+theorem scaleRadii_scaled (ra rb x1p y1p sq : Rat) (hra : ra ≠ 0) (hrb : rb ≠ 0)
+    (hsq : sq * sq = x1p * (rb / ra) * (x1p * (rb / ra)) + y1p * y1p)
+    (hlt : rb * rb < x1p * (rb / ra) * (x1p * (rb / ra)) + y1p * y1p) :
+    let k := sq / rb
+    scaleRadii ra rb x1p y1p sq = (k * ra, k * rb) ∧
+    k * k = x1p * x1p / (ra * ra) + y1p * y1p / (rb * rb) ∧
+    x1p * x1p / ((k * ra) * (k * ra)) + y1p * y1p / ((k * rb) * (k * rb)) = 1 := by
+  have hs := sq_ne rb _ sq hsq hlt
+  refine ⟨?_, ?_, ?_⟩
+  · simp only [scaleRadii, hlt, if_true]
+    by_cases h : ra = rb
+    · subst h; simp; grind
+    · have : (ra == rb) = false := by simpa using h
+      simp [this]; constructor <;> grind
+  · grind
+  · grind
+
+/-! ## string level: number literals, the scanner on literal sequences, segmentation -/
+
+theorem lastD_cons' {α} (d d' : α) (h : α) (t : List α) : lastD d (h :: t) = lastD d' (h :: t) := by
+  induction t generalizing h with
+  | nil => simp [lastD]
+  | cons a t ih => simp only [lastD]; exact ih a
+
+theorem lastD_cons_eq' {α} (d : α) (h : α) (t : List α) : lastD d (h :: t) = lastD h t := by
+  cases t with
+  | nil => simp [lastD]
+  | cons a t => simp only [lastD]; exact lastD_cons' _ _ a t
+
+/-- does `consumeRest` accept every char of `w`?  the state (seenDot, previous char) afterwards -/
+def accepts : Bool → Char → List Char → Option (Bool × Char)
+  | sd, p, [] => some (sd, p)
+  | sd, p, c :: cs =>
+    if c.isDigit then accepts sd c cs
+    else if c == '.' then (if sd then none else accepts true c cs)
+    else if c == '-' || c == '+' then (if p == 'e' || p == 'E' then accepts sd c cs else none)
+    else if c == 'e' || c == 'E' then accepts sd c cs
+    else none
+
+theorem consumeRest_accepts : ∀ (w : List Char) (sd : Bool) (p : Char) (sd' : Bool) (p' : Char) (t : List Char),
+    accepts sd p w = some (sd', p') →
+    consumeRest sd p (w ++ t) = (w ++ (consumeRest sd' p' t).1, (consumeRest sd' p' t).2) := by
+  intro w
+  induction w with
+  | nil => intro sd p sd' p' t h; simp [accepts] at h; simp [h.1, h.2]
+  | cons c cs ih =>
+    intro sd p sd' p' t h
+    simp only [accepts] at h
+    simp only [List.cons_append, consumeRest]
+    split at h
+    · rename_i hd; simp [hd, ih sd c sd' p' t h]
+    · rename_i hd
+      split at h
+      · rename_i hdot
+        split at h
+        · simp at h
+        · rename_i hsd; simp [hd, hdot, hsd, ih true c sd' p' t h]
+      · rename_i hdot
+        split at h
+        · rename_i hm
+          split at h
+          · rename_i hp; simp [hd, hdot, hm, hp, ih sd c sd' p' t h]
+          · simp at h
+        · rename_i hm
+          split at h
+          · rename_i he; simp [hd, hdot, hm, he, ih sd c sd' p' t h]
+          · simp at h
+
+theorem accepts_append : ∀ (u v : List Char) (sd : Bool) (p : Char),
+    accepts sd p (u ++ v) = (accepts sd p u).bind fun r => accepts r.1 r.2 v := by
+  intro u
+  induction u with
+  | nil => intro v sd p; simp [accepts]
+  | cons c cs ih =>
+    intro v sd p
+    simp only [List.cons_append, accepts]
+    split
+    · exact ih v sd c
+    · split
+      · split
+        · simp
+        · exact ih v true c
+      · split
+        · split
+          · exact ih v sd c
+          · simp
+        · split
+          · exact ih v sd c
+          · simp
+
+theorem accepts_digits : ∀ (ds : List Char) (sd : Bool) (p : Char), (∀ c ∈ ds, c.isDigit = true) →
+    accepts sd p ds = some (sd, lastD p ds) := by
+  intro ds
+  induction ds with
+  | nil => intro sd p _; simp [accepts, lastD]
+  | cons d r ih =>
+    intro sd p h
+    have hd : d.isDigit = true := h d (by simp)
+    simp only [accepts, hd, if_true]
+    rw [ih sd d (fun c hc => h c (by simp [hc])), lastD_cons_eq']
+
+/-- `consumeRest` stops at a char that cannot continue the number -/
+theorem consumeRest_stop (sd : Bool) (p : Char) (rest : List Char)
+    (h : match rest with
+      | [] => True
+      | c :: _ => c.isDigit = false ∧ c ≠ 'e' ∧ c ≠ 'E' ∧ (c = '.' → sd = true) ∧
+                  ((c = '-' ∨ c = '+') → p ≠ 'e' ∧ p ≠ 'E')) :
+    consumeRest sd p rest = ([], rest) := by
+  cases rest with
+  | nil => simp [consumeRest]
+  | cons c cs =>
+    obtain ⟨h1, h2, h3, h4, h5⟩ := h
+    simp only [consumeRest, h1]
+    by_cases hd : c = '.'
+    · subst hd; simp [h4 rfl]
+    · by_cases hm : (c = '-' ∨ c = '+')
+      · have := h5 hm
+        rcases hm with hm | hm <;> subst hm <;> simp [this.1, this.2]
+      · simp only [not_or] at hm
+        simp [hd, hm.1, hm.2, h2, h3]
+
+/-- a number literal of the SVG grammar: sign? (digits ("." digits?)? | "." digits) (("e"|"E") sign? digits)? -/
+structure Lit where
+  neg : Bool
+  ip : List Char
+  dot : Bool
+  fp : List Char
+  ex : Option (Char × Option Char × List Char)
+
+def expChars : Option (Char × Option Char × List Char) → List Char
+  | none => []
+  | some (e, none, ds) => e :: ds
+  | some (e, some sg, ds) => e :: sg :: ds
+
+/-- the unsigned part -/
+def Lit.body (l : Lit) : List Char := l.ip ++ ((if l.dot then '.' :: l.fp else []) ++ expChars l.ex)
+
+def Lit.chars (l : Lit) : List Char := if l.neg then '-' :: l.body else l.body
+
+def allDigits (ds : List Char) : Prop := ∀ c ∈ ds, c.isDigit = true
+
+structure Lit.WF (l : Lit) : Prop where
+  ip : allDigits l.ip
+  fp : allDigits l.fp
+  nodot : l.dot = false → l.fp = []
+  nonempty : l.ip ≠ [] ∨ l.fp ≠ []
+  ex : match l.ex with
+    | none => True
+    | some (e, sg, ds) => (e = 'e' ∨ e = 'E') ∧ (sg = none ∨ sg = some '-' ∨ sg = some '+') ∧ ds ≠ [] ∧ allDigits ds
+
+/-- what may follow the literal so that the code's scanner ends the token there -/
+def Lit.stops (l : Lit) : List Char → Prop
+  | [] => True
+  | c :: _ => c.isDigit = false ∧ c ≠ 'e' ∧ c ≠ 'E' ∧ (c = '.' → l.dot = true)
+
+theorem lastD_digit (p : Char) (ds : List Char) (hp : p.isDigit = true ∨ p = '.') (h : allDigits ds) :
+    (lastD p ds).isDigit = true ∨ lastD p ds = '.' := by
+  induction ds generalizing p with
+  | nil => simpa [lastD] using hp
+  | cons d r ih =>
+    rw [lastD_cons_eq']
+    exact ih d (Or.inl (h d (by simp))) (fun c hc => h c (by simp [hc]))
+
+theorem lastD_digit_ne : ∀ (ds : List Char) (p : Char), ds ≠ [] → allDigits ds → (lastD p ds).isDigit = true := by
+  intro ds
+  induction ds with
+  | nil => intro p h; exact absurd rfl h
+  | cons d r ih =>
+    intro p _ h
+    rw [lastD_cons_eq']
+    cases r with
+    | nil => simpa [lastD] using h d (by simp)
+    | cons a t => exact ih d (by simp) (fun c hc => h c (List.mem_cons_of_mem _ hc))
+
+theorem digit_facts (c : Char) (h : c.isDigit = true) :
+    c ≠ '.' ∧ c ≠ '-' ∧ c ≠ '+' ∧ c ≠ 'e' ∧ c ≠ 'E' := by
+  refine ⟨?_, ?_, ?_, ?_, ?_⟩ <;> (intro e; subst e; revert h; decide)
+
+theorem accepts_exp (l : Lit) (hw : l.WF) (sd : Bool) (p : Char) :
+    ∃ p', accepts sd p (expChars l.ex) = some (sd, p') ∧ (p' = p ∨ p'.isDigit = true) := by
+  have hex := hw.ex
+  cases hx : l.ex with
+  | none => exact ⟨p, by simp [expChars, accepts], Or.inl rfl⟩
+  | some t =>
+    obtain ⟨e, sg, ds⟩ := t
+    rw [hx] at hex
+    obtain ⟨he, hs, hne, hd⟩ := hex
+    have hE : e.isDigit = false ∧ (e == '.') = false ∧ (e == '-' || e == '+') = false ∧ (e == 'e' || e == 'E') = true := by
+      rcases he with he | he <;> subst he <;> decide
+    rcases hs with hs | hs | hs <;> subst hs
+    · refine ⟨lastD e ds, ?_, Or.inr (lastD_digit_ne ds e hne hd)⟩
+      simp [expChars, accepts, hE.1, hE.2.1, hE.2.2.1, hE.2.2.2, accepts_digits ds sd e hd]
+    · refine ⟨lastD '-' ds, ?_, Or.inr (lastD_digit_ne ds '-' hne hd)⟩
+      simp only [expChars, accepts, hE.1, hE.2.1, hE.2.2.1, hE.2.2.2]
+      have : ('-' : Char).isDigit = false := by decide
+      rcases he with he | he <;> simp [he, this, accepts_digits ds sd '-' hd]
+    · refine ⟨lastD '+' ds, ?_, Or.inr (lastD_digit_ne ds '+' hne hd)⟩
+      simp only [expChars, accepts, hE.1, hE.2.1, hE.2.2.1, hE.2.2.2]
+      have : ('+' : Char).isDigit = false := by decide
+      rcases he with he | he <;> simp [he, this, accepts_digits ds sd '+' hd]
+
+theorem accepts_dot_exp (l : Lit) (hw : l.WF) (p : Char) (hp : p.isDigit = true ∨ p = '.' ∨ p = '-') :
+    ∃ p', accepts false p ((if l.dot then '.' :: l.fp else []) ++ expChars l.ex) = some (l.dot, p') ∧
+      (p' = p ∨ p'.isDigit = true ∨ p' = '.') := by
+  cases hd : l.dot with
+  | false =>
+    obtain ⟨p', e, h⟩ := accepts_exp l hw false p
+    exact ⟨p', by simpa using e, by rcases h with h | h; exact Or.inl h; exact Or.inr (Or.inl h)⟩
+  | true =>
+    have h1 : accepts false p ('.' :: l.fp) = some (true, lastD '.' l.fp) := by
+      have : ('.' : Char).isDigit = false := by decide
+      simp [accepts, this, accepts_digits l.fp true '.' hw.fp]
+    obtain ⟨p', e, h⟩ := accepts_exp l hw true (lastD '.' l.fp)
+    refine ⟨p', ?_, ?_⟩
+    · simp only [if_true]
+      rw [accepts_append, h1]; simpa using e
+    · rcases h with h | h
+      · right; rw [h]
+        rcases lastD_digit '.' l.fp (Or.inr rfl) hw.fp with g | g
+        · exact Or.inl g
+        · exact Or.inr g
+      · exact Or.inr (Or.inl h)
+
+/-- the code's scanner reads exactly the literal: `consumeNumber` on `literal ++ rest` returns (literal, rest) -/
+theorem consumeNumber_lit (l : Lit) (hw : l.WF) (rest : List Char) (hs : l.stops rest) :
+    match l.chars ++ rest with
+    | [] => False
+    | c :: cs => consumeNumber false c cs = (l.chars, rest) := by
+  -- the state after the literal: seenDot = l.dot, previous char a digit or '.'
+  have fin : ∀ (p' : Char), (p'.isDigit = true ∨ p' = '.') → consumeRest l.dot p' rest = ([], rest) := by
+    intro p' hp'
+    apply consumeRest_stop
+    cases rest with
+    | nil => trivial
+    | cons c cs =>
+      obtain ⟨a, b, c', d⟩ := hs
+      refine ⟨a, b, c', d, ?_⟩
+      intro _
+      rcases hp' with g | g
+      · exact ⟨(digit_facts p' g).2.2.2.1, (digit_facts p' g).2.2.2.2⟩
+      · subst g; decide
+  cases hn : l.neg with
+  | true =>
+    -- '-' then the body
+    have hb : ∃ p', accepts false '-' l.body = some (l.dot, p') ∧ (p'.isDigit = true ∨ p' = '.') := by
+      obtain ⟨p', e, h⟩ := accepts_dot_exp l hw (lastD '-' l.ip) (by
+        rcases hw.nonempty with g | g
+        · exact Or.inl (lastD_digit_ne l.ip '-' g hw.ip)
+        · cases hi : l.ip with
+          | nil => simp [lastD]
+          | cons a t => exact Or.inl (lastD_digit_ne _ '-' (by simp) (hi ▸ hw.ip)))
+      refine ⟨p', ?_, ?_⟩
+      · simp only [Lit.body]; rw [accepts_append, accepts_digits l.ip false '-' hw.ip]; simpa using e
+      · rcases h with h | h | h
+        · rw [h]
+          rcases hw.nonempty with g | g
+          · exact Or.inl (lastD_digit_ne l.ip '-' g hw.ip)
+          · -- ip empty: then dot = true and p' comes from the fraction, handled by the other branches
+            cases hi : l.ip with
+            | cons a t => exact Or.inl (lastD_digit_ne _ '-' (by simp) (hi ▸ hw.ip))
+            | nil =>
+              exfalso
+              have hdot : l.dot = true := by
+                cases hd : l.dot with
+                | true => rfl
+                | false => exact absurd (hw.nodot hd) g
+              -- with a dot the final char is a digit or '.', never the initial '-'
+              have h1 : accepts false '-' ('.' :: l.fp) = some (true, lastD '.' l.fp) := by
+                have : ('.' : Char).isDigit = false := by decide
+                simp [accepts, this, accepts_digits l.fp true '.' hw.fp]
+              obtain ⟨q, eq, hq⟩ := accepts_exp l hw true (lastD '.' l.fp)
+              simp only [hdot, if_true, hi, lastD] at e
+              rw [accepts_append, h1] at e
+              simp only [Option.bind_some] at e
+              rw [eq] at e
+              simp at e
+              rw [← e, hi] at h
+              simp only [lastD] at h
+              rcases hq with hq | hq
+              · rw [hq] at h
+                rcases lastD_digit '.' l.fp (Or.inr rfl) hw.fp with g' | g'
+                · rw [h] at g'; revert g'; decide
+                · rw [h] at g'; revert g'; decide
+              · rw [h] at hq; revert hq; decide
+        · exact Or.inl h
+        · exact Or.inr h
+    obtain ⟨p', e, hp'⟩ := hb
+    simp only [Lit.chars, hn, if_true, List.cons_append, consumeNumber, Bool.false_eq_true, if_false]
+    have : ('-' == '.') = false := by decide
+    rw [this, consumeRest_accepts l.body false '-' l.dot p' rest e, fin p' hp']
+    simp
+  | false =>
+    simp only [Lit.chars, hn, Bool.false_eq_true, if_false]
+    cases hi : l.ip with
+    | cons d ds =>
+      have hd : d.isDigit = true := hw.ip d (by simp [hi])
+      have hds : allDigits ds := fun c hc => hw.ip c (by simp [hi, hc])
+      obtain ⟨p', e, h⟩ := accepts_dot_exp l hw (lastD d ds) (Or.inl (by
+        cases ds with
+        | nil => simpa [lastD] using hd
+        | cons a t => exact lastD_digit_ne _ d (by simp) hds))
+      have hacc : accepts false d (ds ++ ((if l.dot then '.' :: l.fp else []) ++ expChars l.ex)) = some (l.dot, p') := by
+        rw [accepts_append, accepts_digits ds false d hds]; simpa using e
+      have hp' : p'.isDigit = true ∨ p' = '.' := by
+        rcases h with h | h | h
+        · rw [h]; left
+          cases ds with
+          | nil => simpa [lastD] using hd
+          | cons a t => exact lastD_digit_ne _ d (by simp) hds
+        · exact Or.inl h
+        · exact Or.inr h
+      simp only [Lit.body, hi, List.cons_append, consumeNumber, Bool.false_eq_true, if_false]
+      have : (d == '.') = false := by simpa using (digit_facts d hd).1
+      rw [this, consumeRest_accepts _ false d l.dot p' rest hacc, fin p' hp']
+      simp
+    | nil =>
+      have hfp : l.fp ≠ [] := by
+        rcases hw.nonempty with g | g
+        · exact absurd hi g
+        · exact g
+      have hdot : l.dot = true := by
+        cases hd : l.dot with
+        | true => rfl
+        | false => exact absurd (hw.nodot hd) hfp
+      obtain ⟨p', e, h⟩ := accepts_exp l hw true (lastD '.' l.fp)
+      have hacc : accepts true '.' (l.fp ++ expChars l.ex) = some (true, p') := by
+        rw [accepts_append, accepts_digits l.fp true '.' hw.fp]; simpa using e
+      have hp' : p'.isDigit = true ∨ p' = '.' := by
+        rcases h with h | h
+        · rw [h]; left; exact lastD_digit_ne l.fp '.' hfp hw.fp
+        · exact Or.inl h
+      simp only [Lit.body, hi, hdot, if_true, List.nil_append, List.cons_append, consumeNumber, Bool.false_eq_true, if_false]
+      have : ('.' == '.') = true := by decide
+      have hf := fin p' hp'
+      rw [hdot] at hf
+      rw [this, consumeRest_accepts _ true '.' true p' rest hacc, hf]
+      simp
+
+def Lit.mant (l : Lit) : Rat :=
+  let m : Rat := ((natOf (l.ip ++ l.fp) : Nat) : Rat) / ((10 ^ l.fp.length : Nat) : Rat)
+  if l.neg then -m else m
+
+/-- the value SVG gives the literal -/
+def Lit.value (l : Lit) : Rat :=
+  match l.ex with
+  | none => l.mant
+  | some (_, sg, ds) => l.mant * pow10 (sg == some '-') (natOf ds)
+
+def hnd (t : List Char) : Prop := ∀ c, t.head? = some c → c.isDigit = false
+
+theorem tw_digits (ds t : List Char) (h : allDigits ds) (ht : hnd t) :
+    (ds ++ t).takeWhile Char.isDigit = ds ∧ (ds ++ t).dropWhile Char.isDigit = t := by
+  induction ds with
+  | nil =>
+    cases t with
+    | nil => simp
+    | cons c cs => have := ht c rfl; simp [List.takeWhile, List.dropWhile, this]
+  | cons d r ih =>
+    have hd := h d (by simp)
+    have := ih (fun c hc => h c (by simp [hc]))
+    simp [List.takeWhile, List.dropWhile, hd, this.1, this.2]
+
+theorem hnd_exp_rest (l : Lit) (hw : l.WF) (rest : List Char) (hs : l.stops rest) :
+    hnd (expChars l.ex ++ rest) := by
+  intro c hc
+  have hex := hw.ex
+  cases hx : l.ex with
+  | none =>
+    simp only [hx, expChars, List.nil_append] at hc
+    cases rest with
+    | nil => simp at hc
+    | cons a t => simp at hc; subst hc; exact hs.1
+  | some t =>
+    obtain ⟨e, sg, ds⟩ := t
+    rw [hx] at hex
+    have he := hex.1
+    cases sg <;> simp [hx, expChars] at hc <;> subst hc <;> rcases he with he | he <;> subst he <;> decide
+
+theorem hnd_rest (l : Lit) (rest : List Char) (hs : l.stops rest) : hnd rest := by
+  intro c hc
+  cases rest with
+  | nil => simp at hc
+  | cons a t => simp at hc; subst hc; exact hs.1
+
+theorem body_head (l : Lit) (hw : l.WF) (rest : List Char) :
+    ∃ c t, l.body ++ rest = c :: t ∧ c ≠ '-' ∧ c ≠ '+' := by
+  cases hi : l.ip with
+  | cons d ds =>
+    have hd := hw.ip d (by simp [hi])
+    exact ⟨d, ds ++ ((if l.dot = true then '.' :: l.fp else []) ++ (expChars l.ex ++ rest)), by simp [Lit.body, hi], (digit_facts d hd).2.1, (digit_facts d hd).2.2.1⟩
+  | nil =>
+    have hfp : l.fp ≠ [] := by
+      rcases hw.nonempty with g | g
+      · exact absurd hi g
+      · exact g
+    have hdot : l.dot = true := by
+      cases hd : l.dot with
+      | true => rfl
+      | false => exact absurd (hw.nodot hd) hfp
+    exact ⟨'.', l.fp ++ (expChars l.ex ++ rest), by simp [Lit.body, hi, hdot], by decide, by decide⟩
+
+theorem signOf_lit (l : Lit) (hw : l.WF) (rest : List Char) :
+    signOf (l.chars ++ rest) = (l.neg, l.body ++ rest) := by
+  cases hn : l.neg with
+  | true => simp [Lit.chars, hn, signOf]
+  | false =>
+    obtain ⟨c, t, e, h1, h2⟩ := body_head l hw rest
+    simp only [Lit.chars, hn, Bool.false_eq_true, if_false, e]
+    unfold signOf
+    split
+    · rename_i heq; injection heq with a b; exact absurd a h1
+    · rename_i heq; injection heq with a b; exact absurd a h2
+    · rfl
+
+theorem nodot_head (l : Lit) (hw : l.WF) (rest : List Char) (hs : l.stops rest) (hd : l.dot = false) :
+    ∀ r, expChars l.ex ++ rest ≠ '.' :: r := by
+  intro r h
+  have hex := hw.ex
+  cases hx : l.ex with
+  | none =>
+    simp only [hx, expChars, List.nil_append] at h
+    subst h
+    have := hs.2.2.2 rfl
+    rw [hd] at this; exact absurd this (by decide)
+  | some t =>
+    obtain ⟨e, sg, ds⟩ := t
+    rw [hx] at hex
+    have he := hex.1
+    cases sg <;> simp [hx, expChars] at h <;> rcases he with he | he <;> rw [he] at h <;> exact absurd h.1 (by decide)
+
+/-- the fraction step of `readNumber` on the literal's remainder -/
+theorem frac_step (l : Lit) (hw : l.WF) (rest : List Char) (hs : l.stops rest) :
+    fracStep l.ip ((if l.dot then '.' :: l.fp else []) ++ expChars l.ex ++ rest) = (l.fp, expChars l.ex ++ rest) := by
+  cases hd : l.dot with
+  | true =>
+    have h := tw_digits l.fp (expChars l.ex ++ rest) hw.fp (hnd_exp_rest l hw rest hs)
+    have hne : (l.ip.isEmpty && l.fp.isEmpty) = false := by
+      rcases hw.nonempty with g | g
+      · cases hi : l.ip with
+        | nil => exact absurd hi g
+        | cons a t => simp
+      · cases hf : l.fp with
+        | nil => exact absurd hf g
+        | cons a t => simp
+    simp only [if_true, List.cons_append, List.append_assoc, fracStep, digits, h.1, h.2, hne, Bool.false_eq_true, if_false]
+  | false =>
+    have hf := hw.nodot hd
+    simp only [Bool.false_eq_true, if_false, List.nil_append, hf]
+    unfold fracStep
+    split
+    · rename_i r heq; exact absurd heq (nodot_head l hw rest hs hd r)
+    · rfl
+
+/-- the exponent step of `readNumber` -/
+theorem exp_step (l : Lit) (hw : l.WF) (rest : List Char) (hs : l.stops rest) (mant : Rat) :
+    expStep mant (expChars l.ex ++ rest) =
+    some (match l.ex with
+      | none => mant
+      | some (_, sg, ds) => mant * pow10 (sg == some '-') (natOf ds), rest) := by
+  have hex := hw.ex
+  have hr := hnd_rest l rest hs
+  cases hx : l.ex with
+  | none =>
+    simp only [expChars, List.nil_append]
+    cases rest with
+    | nil => rfl
+    | cons c cs =>
+      have h1 : (c == 'e' || c == 'E') = false := by
+        have := hs.2.1; have := hs.2.2.1; simp [*]
+      simp [expStep, h1]
+  | some t =>
+    obtain ⟨e, sg, ds⟩ := t
+    rw [hx] at hex
+    obtain ⟨he, hsg, hne, hd⟩ := hex
+    have hE : (e == 'e' || e == 'E') = true := by rcases he with he | he <;> subst he <;> decide
+    have htw := tw_digits ds rest hd hr
+    have hdne : ds.isEmpty = false := by cases ds with
+      | nil => exact absurd rfl hne
+      | cons a t => rfl
+    rcases hsg with hsg | hsg | hsg <;> subst hsg
+    · cases ds with
+      | nil => exact absurd rfl hne
+      | cons a t =>
+        have ha := hd a (by simp)
+        have hs1 : signOf (a :: t ++ rest) = (false, a :: t ++ rest) := by
+          unfold signOf
+          split
+          · rename_i heq; injection heq with x y; exact absurd x (digit_facts a ha).2.1
+          · rename_i heq; injection heq with x y; exact absurd x (digit_facts a ha).2.2.1
+          · rfl
+        simp only [List.cons_append] at hs1 htw
+        simp [expChars, expStep, hE, hs1, digits, htw.1, htw.2]
+    · simp [expChars, expStep, hE, signOf, digits, htw.1, htw.2, hdne]
+    · simp [expChars, expStep, hE, signOf, digits, htw.1, htw.2, hdne]
+
+/-- the spec's number reader reads exactly the literal, with its value -/
+theorem readNumber_lit (l : Lit) (hw : l.WF) (rest : List Char) (hs : l.stops rest) :
+    readNumber true (l.chars ++ rest) = some (l.value, rest) := by
+  have hX : hnd ((if l.dot then '.' :: l.fp else []) ++ expChars l.ex ++ rest) := by
+    cases hd : l.dot with
+    | true => intro c hc; simp at hc; subst hc; decide
+    | false => simpa using hnd_exp_rest l hw rest hs
+  have hdig := tw_digits l.ip _ hw.ip hX
+  have hne : (l.ip.isEmpty && l.fp.isEmpty) = false := by
+    rcases hw.nonempty with g | g
+    · cases hi : l.ip with
+      | nil => exact absurd hi g
+      | cons a t => simp
+    · cases hf : l.fp with
+      | nil => exact absurd hf g
+      | cons a t => simp
+  have hb : l.body ++ rest = l.ip ++ ((if l.dot then '.' :: l.fp else []) ++ expChars l.ex ++ rest) := by
+    simp [Lit.body]
+  unfold readNumber
+  simp only [signOf_lit l hw rest, Bool.not_true, Bool.false_and, Bool.false_eq_true, if_false, hb, digits, hdig.1, hdig.2,
+    frac_step l hw rest hs, hne, exp_step l hw rest hs]
+  simp only [Lit.value, Lit.mant]
+
+
+def sgChars : Option Char → List Char
+  | none => []
+  | some c => [c]
+
+theorem expChars_some (e : Char) (sg : Option Char) (ds : List Char) :
+    expChars (some (e, sg, ds)) = e :: (sgChars sg ++ ds) := by
+  cases sg <;> simp [expChars, sgChars]
+
+/-- exponents small enough that `parseFloat` does not take its far-outside-float32 shortcuts -/
+def Lit.expSmall (l : Lit) : Prop :=
+  match l.ex with
+  | none => True
+  | some (_, _, ds) => natOf ds ≤ 60
+
+theorem stripSign_lit (l : Lit) (hw : l.WF) : stripSign l.chars = (l.neg, l.body) := by
+  have := signOf_lit l hw []
+  simp only [List.append_nil] at this
+  unfold signOf at this
+  unfold stripSign
+  exact this
+
+theorem fracPart_lit (l : Lit) (hw : l.WF) (hsE : l.stops []) :
+    fracPart ((if l.dot then '.' :: l.fp else []) ++ expChars l.ex) = (l.fp, expChars l.ex) := by
+  cases hd : l.dot with
+  | true =>
+    have h := tw_digits l.fp (expChars l.ex) hw.fp (by simpa using hnd_exp_rest l hw [] hsE)
+    simp [fracPart, h.1, h.2]
+  | false =>
+    have hf := hw.nodot hd
+    simp only [Bool.false_eq_true, if_false, List.nil_append, hf]
+    unfold fracPart
+    split
+    · rename_i r heq
+      exact absurd (by simpa using heq) (nodot_head l hw [] hsE hd r)
+    · rfl
+
+/-- strconv.ParseFloat on the literal: its exact value, unless that does not fit float32 -/
+theorem parseFloat_lit (l : Lit) (hw : l.WF) (hsm : l.expSmall) (hov : f32Overflow l.value = false) :
+    parseFloat l.chars = some l.value := by
+  have hsE : l.stops [] := trivial
+  have hX : hnd ((if l.dot then '.' :: l.fp else []) ++ expChars l.ex) := by
+    cases hd : l.dot with
+    | true => intro c hc; simp at hc; subst hc; decide
+    | false => simpa using hnd_exp_rest l hw [] hsE
+  have hdig := tw_digits l.ip _ hw.ip hX
+  have hne : (l.ip.isEmpty && l.fp.isEmpty) = false := by
+    rcases hw.nonempty with g | g
+    · cases hi : l.ip with
+      | nil => exact absurd hi g
+      | cons a t => simp
+    · cases hf : l.fp with
+      | nil => exact absurd hf g
+      | cons a t => simp
+  unfold parseFloat
+  simp only [stripSign_lit l hw, Lit.body, hdig.1, hdig.2, fracPart_lit l hw hsE, hne, Bool.false_eq_true, if_false]
+  have hex := hw.ex
+  cases hx : l.ex with
+  | none =>
+    have hv : l.value = l.mant := by simp [Lit.value, hx]
+    rw [hv] at hov
+    simp only [Lit.mant] at hov
+    simp [expChars, expPart, hv, Lit.mant] at hov ⊢
+    simp [hov]
+  | some t =>
+    obtain ⟨e, sg, ds⟩ := t
+    rw [hx] at hex
+    obtain ⟨he, hsg, hne', hd⟩ := hex
+    have hE : (e == 'e' || e == 'E') = true := by rcases he with he | he <;> subst he <;> decide
+    have htw := tw_digits ds [] hd (by intro c hc; simp at hc)
+    simp only [List.append_nil] at htw
+    have hdne : ds.isEmpty = false := by cases ds with
+      | nil => exact absurd rfl hne'
+      | cons a t => rfl
+    have hsmall : natOf ds ≤ 60 := by simpa [Lit.expSmall, hx] using hsm
+    have hv : l.value = l.mant * pow10 (sg == some '-') (natOf ds) := by simp [Lit.value, hx]
+    rw [hv] at hov
+    simp only [Lit.mant] at hov
+    have hss : stripSign (sgChars sg ++ ds) = (sg == some '-', ds) := by
+      rcases hsg with hsg | hsg | hsg <;> subst hsg
+      · cases ds with
+        | nil => exact absurd rfl hne'
+        | cons a t =>
+          have ha := hd a (by simp)
+          simp only [sgChars, List.nil_append]
+          unfold stripSign
+          split
+          · rename_i heq; injection heq with x y; exact absurd x (digit_facts a ha).2.1
+          · rename_i heq; injection heq with x y; exact absurd x (digit_facts a ha).2.2.1
+          · rfl
+      · simp [stripSign, sgChars]
+      · simp [stripSign, sgChars]
+    simp only [expChars_some, expPart, hE, if_true, hss, htw.1, htw.2, hdne, List.isEmpty_nil, Bool.not_true, Bool.or_false, Bool.false_eq_true, if_false]
+    by_cases hn0 : natOf (l.ip ++ l.fp) = 0
+    · have hz : ∀ x : Rat, (0 : Rat) / x = 0 := by intro x; grind
+      have hm0 : l.mant = 0 := by
+        simp only [Lit.mant, hn0]; cases l.neg <;> simp [hz]
+      simp [hn0, hv, hm0]
+    · have h1 : ¬ (natOf ds > l.fp.length + 60) := by omega
+      have h2 : ¬ (natOf ds > l.ip.length + 60) := by omega
+      simp [hn0, h1, h2, hv, Lit.mant] at hov ⊢
+      simp [hov]
+
+/-- separator bytes: everything the scanner skips (whitespace, comma, '+', …) -/
+def isSep (c : Char) : Prop := isNumStart c = false
+
+def sepOk (sep : List Char) : Prop := ∀ c ∈ sep, isSep c
+
+/-- literal followed by separator bytes -/
+abbrev Item := Lit × List Char
+
+def render : List Item → List Char
+  | [] => []
+  | (l, sep) :: r => l.chars ++ (sep ++ render r)
+
+/-- every literal is well formed and is followed by something that ends it -/
+def chainOk : List Item → Prop
+  | [] => True
+  | (l, sep) :: r => l.WF ∧ l.neg = l.neg ∧ sepOk sep ∧ l.stops (sep ++ render r) ∧ chainOk r
+
+theorem isNumStart_head (l : Lit) (hw : l.WF) (rest : List Char) :
+    ∃ c cs, l.chars ++ rest = c :: cs ∧ isNumStart c = true := by
+  cases hn : l.neg with
+  | true => exact ⟨'-', l.body ++ rest, by simp [Lit.chars, hn], by decide⟩
+  | false =>
+    cases hi : l.ip with
+    | cons d ds =>
+      have hd := hw.ip d (by simp [hi])
+      exact ⟨d, ds ++ ((if l.dot = true then '.' :: l.fp else []) ++ expChars l.ex) ++ rest,
+        by simp [Lit.chars, hn, Lit.body, hi], by simp [isNumStart, hd]⟩
+    | nil =>
+      have hfp : l.fp ≠ [] := by
+        rcases hw.nonempty with g | g
+        · exact absurd hi g
+        · exact g
+      have hdot : l.dot = true := by
+        cases hd : l.dot with
+        | true => rfl
+        | false => exact absurd (hw.nodot hd) hfp
+      exact ⟨'.', l.fp ++ expChars l.ex ++ rest, by simp [Lit.chars, hn, Lit.body, hi, hdot], by decide⟩
+
+theorem scan_seps (fuel n : Nat) : ∀ (sep t : List Char), sepOk sep → sep.length < fuel →
+    scan false fuel n (sep ++ t) = (scan false (fuel - sep.length) n t).map (sep.map Piece.skip ++ ·) := by
+  intro sep
+  induction sep generalizing fuel with
+  | nil => intro t _ _; simp
+  | cons c cs ih =>
+    intro t hs hl
+    cases fuel with
+    | zero => simp at hl
+    | succ k =>
+      have hc : isNumStart c = false := hs c (by simp)
+      simp only [List.cons_append, scan, hc, Bool.false_eq_true, if_false]
+      rw [ih k t (fun x hx => hs x (by simp [hx])) (by simp at hl; omega)]
+      simp only [List.length_cons, Nat.add_sub_add_right, Option.map_map]
+      congr 1
+
+theorem scan_items : ∀ (items : List Item) (fuel n : Nat), chainOk items → (render items).length < fuel →
+    ∃ ps, scan false fuel n (render items) = some ps ∧ tokens ps = items.map fun it => it.1.chars := by
+  intro items
+  induction items with
+  | nil => intro fuel n _ hl; cases fuel with
+    | zero => simp at hl
+    | succ k => exact ⟨[], by simp [render, scan], by simp [tokens]⟩
+  | cons it r ih =>
+    intro fuel n hc hl
+    obtain ⟨l, sep⟩ := it
+    obtain ⟨hw, _, hsep, hst, hr⟩ := hc
+    cases fuel with
+    | zero => simp at hl
+    | succ k =>
+      obtain ⟨c, cs, e, hns⟩ := isNumStart_head l hw (sep ++ render r)
+      have hcn := consumeNumber_lit l hw (sep ++ render r) hst
+      rw [e] at hcn
+      simp only [render] at hl ⊢
+      rw [e]
+      simp only [scan, hns, if_true, Bool.false_and, hcn]
+      have hpos : 1 ≤ l.chars.length := by
+        obtain ⟨c', cs', e', _⟩ := isNumStart_head l hw []
+        simp only [List.append_nil] at e'
+        rw [e']; simp
+      have hl' : l.chars.length + (sep.length + (render r).length) < k + 1 := by
+        simpa [List.length_append] using hl
+      rw [scan_seps k (n + 1) sep (render r) hsep (by omega)]
+      obtain ⟨ps, e2, t2⟩ := ih (k - sep.length) (n + 1) hr (by omega)
+      refine ⟨Piece.tok l.chars :: (sep.map Piece.skip ++ ps), by simp [e2], ?_⟩
+      simp only [tokens, List.filterMap_cons, List.filterMap_append, List.map_cons] at t2 ⊢
+      rw [t2]
+      simp [List.filterMap_map]
+
+def valuesOk (items : List Item) : Prop :=
+  ∀ it ∈ items, it.1.WF ∧ it.1.expSmall ∧ f32Overflow it.1.value = false
+
+theorem mapM_parseFloat (items : List Item) (h : valuesOk items) :
+    (items.map fun it => it.1.chars).mapM parseFloat = some (items.map fun it => it.1.value) := by
+  induction items with
+  | nil => simp
+  | cons it r ih =>
+    obtain ⟨hw, hs, ho⟩ := h it (by simp)
+    have := ih (fun x hx => h x (by simp [hx]))
+    simp [List.mapM_cons, parseFloat_lit it.1 hw hs ho, this]
+
+/-- string → numbers: a list of well-formed literals with any separators the scanner skips is read by the
+    code's `parsePoints` as exactly the literals' values -/
+theorem parsePoints_items (items : List Item) (hc : chainOk items) (hv : valuesOk items) :
+    parsePoints false (render items) = .ok (items.map fun it => it.1.value) := by
+  obtain ⟨ps, e, t⟩ := scan_items items ((render items).length + 1) 0 hc (by omega)
+  simp [parsePoints, e, t, mapM_parseFloat items hv]
+
+theorem digit_not_alpha (c : Char) (h : c.isDigit = true) : c.isAlpha = false := by
+  simp only [Char.isDigit, Char.isAlpha, Char.isUpper, Char.isLower, Bool.and_eq_true, decide_eq_true_eq, Bool.or_eq_false_iff,
+    Bool.and_eq_false_iff, decide_eq_false_iff_not] at h ⊢
+  have h1 := h.1
+  have h2 := h.2
+  simp only [UInt32.le_iff_toNat_le] at h1 h2 ⊢
+  have e0 : ('0' : Char).val.toNat = 48 := by decide
+  have e9 : ('9' : Char).val.toNat = 57 := by decide
+  have ec : c.toNat = c.val.toNat := rfl
+  constructor <;> (simp; omega)
+
+def noCmd (w : List Char) : Prop := ∀ c ∈ w, isCmd c = false
+
+theorem noCmd_digits (ds : List Char) (h : allDigits ds) : noCmd ds := by
+  intro c hc; simp [isCmd, digit_not_alpha c (h c hc)]
+
+theorem noCmd_append (u v : List Char) (hu : noCmd u) (hv : noCmd v) : noCmd (u ++ v) := by
+  intro c hc
+  rcases List.mem_append.mp hc with h | h
+  · exact hu c h
+  · exact hv c h
+
+theorem noCmd_lit (l : Lit) (hw : l.WF) : noCmd l.chars := by
+  have hbody : noCmd l.body := by
+    apply noCmd_append _ _ (noCmd_digits _ hw.ip)
+    apply noCmd_append
+    · cases l.dot with
+      | false => intro c hc; simp at hc
+      | true =>
+        intro c hc
+        simp only [if_true, List.mem_cons] at hc
+        rcases hc with hc | hc
+        · subst hc; decide
+        · exact noCmd_digits _ hw.fp c hc
+    · have hex := hw.ex
+      cases hx : l.ex with
+      | none => intro c hc; simp [expChars] at hc
+      | some t =>
+        obtain ⟨e, sg, ds⟩ := t
+        rw [hx] at hex
+        obtain ⟨he, hsg, _, hd⟩ := hex
+        rw [expChars_some]
+        intro c hc
+        simp only [List.mem_cons, List.mem_append] at hc
+        rcases hc with hc | hc | hc
+        · subst hc; rcases he with he | he <;> subst he <;> decide
+        · rcases hsg with g | g | g <;> subst g <;> simp [sgChars] at hc <;> subst hc <;> decide
+        · exact noCmd_digits _ hd c hc
+  cases hn : l.neg with
+  | false => simpa [Lit.chars, hn] using hbody
+  | true =>
+    intro c hc
+    simp only [Lit.chars, hn, if_true, List.mem_cons] at hc
+    rcases hc with hc | hc
+    · subst hc; decide
+    · exact hbody c hc
+
+theorem splitSegs_nocmd : ∀ (w t : List Char), noCmd w →
+    splitSegs (w ++ t) = (w ++ (splitSegs t).1, (splitSegs t).2) := by
+  intro w
+  induction w with
+  | nil => intro t _; simp
+  | cons c cs ih =>
+    intro t h
+    have hc := h c (by simp)
+    have := ih t (fun x hx => h x (by simp [hx]))
+    simp [splitSegs, hc, this]
+
+/-- a command as text: letter, optional bytes the scanner skips, literals with separators -/
+structure SCmd where
+  letter : Char
+  lead : List Char
+  items : List Item
+
+def SCmd.args (c : SCmd) : List Char := c.lead ++ render c.items
+def SCmd.text (c : SCmd) : List Char := c.letter :: c.args
+
+def renderCmds : List SCmd → List Char
+  | [] => []
+  | c :: r => c.text ++ renderCmds r
+
+theorem noCmd_render : ∀ items : List Item, (∀ it ∈ items, it.1.WF ∧ noCmd it.2) → noCmd (render items) := by
+  intro items
+  induction items with
+  | nil => intro _ c hc; simp [render] at hc
+  | cons it r ih =>
+    intro h
+    obtain ⟨l, sep⟩ := it
+    have := h (l, sep) (by simp)
+    simp only [render]
+    exact noCmd_append _ _ (noCmd_lit l this.1) (noCmd_append _ _ this.2 (ih (fun x hx => h x (by simp [hx]))))
+
+/-- segmentation: `parsePath` cuts the text exactly at the command letters -/
+theorem splitSegs_render : ∀ cs : List SCmd,
+    (∀ c ∈ cs, isCmd c.letter = true ∧ noCmd c.lead ∧ ∀ it ∈ c.items, it.1.WF ∧ noCmd it.2) →
+    splitSegs (renderCmds cs) = ([], cs.map fun c => (c.letter, c.args)) := by
+  intro cs
+  induction cs with
+  | nil => intro _; simp [renderCmds, splitSegs]
+  | cons c r ih =>
+    intro h
+    obtain ⟨h1, h2, h3⟩ := h c (by simp)
+    have hr := ih (fun x hx => h x (by simp [hx]))
+    have hargs : noCmd c.args := noCmd_append _ _ h2 (noCmd_render _ h3)
+    simp only [renderCmds, SCmd.text, List.cons_append, splitSegs, h1, if_true]
+    rw [splitSegs_nocmd c.args (renderCmds r) hargs, hr]
+    simp
+
+/-- one command's argument text is well formed: skipped bytes, then literals each ended by what follows -/
+def SCmd.ok (c : SCmd) : Prop :=
+  isCmd c.letter = true ∧ c.letter ≠ 'a' ∧ c.letter ≠ 'A' ∧
+  sepOk c.lead ∧ noCmd c.lead ∧ chainOk c.items ∧ valuesOk c.items ∧ ∀ it ∈ c.items, noCmd it.2
+
+def SCmd.values (c : SCmd) : List Rat := c.items.map fun it => it.1.value
+
+theorem tokens_skips (w : List Char) : tokens (w.map Piece.skip) = [] := by
+  induction w with
+  | nil => rfl
+  | cons c r ih => simp only [List.map_cons, tokens, List.filterMap_cons] at ih ⊢; exact ih
+
+theorem tokens_append (a b : List Piece) : tokens (a ++ b) = tokens a ++ tokens b := by
+  simp [tokens, List.filterMap_append]
+
+theorem parsePoints_args (c : SCmd) (h : c.ok) : parsePoints false c.args = .ok c.values := by
+  obtain ⟨_, _, _, hl, _, hc, hv, _⟩ := h
+  have hlen : c.args.length = c.lead.length + (render c.items).length := by simp [SCmd.args]
+  obtain ⟨ps, e, t⟩ := scan_items c.items (c.args.length + 1 - c.lead.length) 0 hc (by omega)
+  have hs := scan_seps (c.args.length + 1) 0 c.lead (render c.items) hl (by omega)
+  simp only [parsePoints, SCmd.args] at hs ⊢
+  simp only [SCmd.args] at e
+  rw [hs, e]
+  simp only [Option.map_some, tokens_append, tokens_skips, List.nil_append, t, mapM_parseFloat c.items hv, SCmd.values]
+
+theorem runRaw_eq : ∀ (segs : List (Char × List Char × List Rat)) (st : St),
+    (∀ s ∈ segs, parsePoints (s.1 == 'a' || s.1 == 'A') s.2.1 = .ok s.2.2) →
+    runRaw st (segs.map fun s => (s.1, s.2.1)) = runSegs st (segs.map fun s => (s.1, s.2.2)) := by
+  intro segs
+  induction segs with
+  | nil => intro st _; simp [runRaw, runSegs]
+  | cons s r ih =>
+    intro st h
+    have h1 := h s (by simp)
+    simp only [List.map_cons, runRaw, runSegs, h1]
+    cases addSeg st s.1 s.2.2 with
+    | error e => rfl
+    | ok v =>
+      obtain ⟨st1, o1⟩ := v
+      simp only []
+      rw [ih st1 (fun x hx => h x (by simp [hx]))]
+
+/-- string → interpreter input: on the text of well-formed non-arc commands `parsePath` runs the interpreter
+    on exactly the command letters and the literals' values -/
+theorem parsePath_render (cs : List SCmd) (h : ∀ c ∈ cs, c.ok) :
+    parsePath (renderCmds cs) = runSegs {} (cs.map fun c => (c.letter, c.values)) := by
+  have hsplit := splitSegs_render cs (fun c hc => by
+    obtain ⟨a, _, _, _, b, hch, hv, d⟩ := h c hc
+    exact ⟨a, b, fun it hit => ⟨(hv it hit).1, d it hit⟩⟩)
+  have := runRaw_eq (cs.map fun c => (c.letter, c.args, c.values)) {} (by
+    intro s hs
+    obtain ⟨c, hc, rfl⟩ := List.mem_map.mp hs
+    obtain ⟨_, na, nA, _⟩ := h c hc
+    have : (c.letter == 'a' || c.letter == 'A') = false := by simp [na, nA]
+    simp only [this]
+    exact parsePoints_args c (h c hc))
+  simp only [List.map_map, Function.comp_def] at this
+  simp only [parsePath, hsplit]
+  exact this
+
+/-! ## example values for the non-vacuity examples of the Props file: the text `1-2.5.5 ` -/
+
+def exL1 : Lit := { neg := false, ip := ['1'], dot := false, fp := [], ex := none }
+def exL2 : Lit := { neg := true, ip := ['2'], dot := true, fp := ['5'], ex := none }
+def exL3 : Lit := { neg := false, ip := [], dot := true, fp := ['5'], ex := none }
+def exItems : List Item := [(exL1, []), (exL2, []), (exL3, [' '])]
+
+theorem exL1_wf : exL1.WF := ⟨by simp [allDigits, exL1], by simp [allDigits, exL1], by simp [exL1], by simp [exL1], by simp [exL1]⟩
+theorem exL2_wf : exL2.WF := ⟨by simp [allDigits, exL2], by simp [allDigits, exL2], by simp [exL2], by simp [exL2], by simp [exL2]⟩
+theorem exL3_wf : exL3.WF := ⟨by simp [allDigits, exL3], by simp [allDigits, exL3], by simp [exL3], by simp [exL3], by simp [exL3]⟩
+
+theorem exItems_chain : chainOk exItems := by
+  refine ⟨exL1_wf, rfl, by simp [sepOk], ?_, exL2_wf, rfl, by simp [sepOk], ?_, exL3_wf, rfl, ?_, ?_, trivial⟩
+  · simp [render, Lit.stops, Lit.chars, Lit.body, exL2, exL3, expChars]
+  · simp [render, Lit.stops, Lit.chars, Lit.body, exL2, exL3, expChars]
+  · intro c hc; simp at hc; subst hc; simp [isSep, isNumStart]
+  · simp [render, Lit.stops, exL3]
+
 end WR.C18.Lemmas
